@@ -41,6 +41,11 @@ type c08Case struct {
 	Frontend string   `json:"frontend"` // h1 | h2 | spdy
 	Shape    string   `json:"shape"`    // request shape
 	Faults   []string `json:"faults"`   // fault for the k-th arrival at a live backend
+	// reload-history dimension (c08hist.go): life cycle of the cluster and the number of
+	// reload steps executed before this request; Level/Max/Cross are then the values of the
+	// cluster_conf that is CURRENTLY installed
+	Hist string `json:"hist,omitempty"`
+	Step int    `json:"step,omitempty"`
 }
 
 var c08Shapes = []string{"GET", "GET-cl0", "HEAD", "POST-fixed", "POST-chunked", "PUT-fixed", "POST-expect", "GET-body"}
@@ -75,7 +80,7 @@ func (c *c08Case) hasBody() bool {
 }
 
 func c08(r *vkit.Run) {
-	r.SetRule("full in-process BFE with 24 clusters = RetryLevel{0,1} x RetryMax{0..3} x CrossRetry{0..2}; each has a primary sub-cluster (2 refused ports + 2 live backends), two weight-0 sub-clusters and a blackhole; per request a fault vector (ok/close before reply/RST/partial header then close/reply slower than TimeoutResponseHeader/close the kept-alive connection after replying) is applied to the k-th arrival at a live backend; 8 request shapes (GET, GET CL:0, HEAD, POST fixed/chunked/expect-100, PUT, GET with body). Thorough enumerates all fault vectors of length<=3 (and seeded length 4) x shapes x clusters; quick a seeded subset. Oracle: offline checker over the per-request attempt log from the forward callback + backend arrivals. Non-trivial = >=1 failed attempt observed; distinct = (retry setting, shape, fault vector)")
+	r.SetRule("full in-process BFE with 24 clusters = RetryLevel{0,1} x RetryMax{0..3} x CrossRetry{0..2}; each has a primary sub-cluster (2 refused ports + 2 live backends), two weight-0 sub-clusters and a blackhole; per request a fault vector (ok/close before reply/RST/partial header then close/reply slower than TimeoutResponseHeader/close the kept-alive connection after replying) is applied to the k-th arrival at a live backend; 8 request shapes (GET, GET CL:0, HEAD, POST fixed/chunked/expect-100, PUT, GET with body). Thorough enumerates all fault vectors of length<=3 (and seeded length 4) x shapes x clusters; quick a seeded subset. Oracle: offline checker over the per-request attempt log from the forward callback + backend arrivals. RELOAD HISTORY (c08hist.go): 30 (thorough 80) further clusters d<k> with RetryMax,CrossRetry in {0,1,2} run through 10 scripted life cycles built from gslb reloads that add/remove the cluster in gslb.data+cluster_table.data and server-data reloads that introduce it or change its retry settings, in both orders (cluster_conf first / gslb first; removed and re-added; settings changed before or after the balancer exists), executed through the server's own GslbDataConfReload/ServerDataConfReload entry points on generated conf dirs over 30 (thorough 90) sequential steps; after every step each routable dynamic cluster gets a GET whose every live arrival fails, a seeded shape/fault vector and a request with a body, judged by the same checker with the retry settings of the cluster_conf installed at that moment (half of the dynamic clusters have a primary sub-cluster of refused ports only, so every shape uses its whole budget). Non-trivial = >=1 failed attempt observed; distinct = (retry setting, shape, fault vector[, life-cycle stage])")
 	bs := e2e.NewBackendSet()
 	defer bs.Close()
 	var mu sync.Mutex
@@ -145,13 +150,43 @@ func c08(r *vkit.Run) {
 			}
 		}
 	}
-	srv, err := e2e.Start(&e2e.Options{Clusters: clusters, HTTPS: true,
+	// reload-history dimension (c08hist.go): dynamic clusters d<k> next to the 24 static ones
+	hist := newC08History(r, clusters, func(d *c08DynState) e2e.Cluster {
+		prim := []e2e.Backend{lb(0, 3), db(0, 2), lb(1, 2), db(1, 1)}
+		if d.Layout == "deadprim" {
+			prim = []e2e.Backend{db(0, 2), db(1, 1), db(2, 1)}
+		}
+		return e2e.Cluster{
+			Name: d.Name, Hosts: []string{d.Name + ".c08.test"}, RetryLevel: d.Level, RetryMax: d.Max, CrossRetry: d.Cross,
+			MaxIdleConnsPerHost: 2, TimeoutResponseHeader: 500, TimeoutConnSrv: 5000,
+			SubClusters: []e2e.SubCluster{
+				{Name: "prim", Weight: 100, Backends: prim},
+				{Name: "x1", Weight: 0, Backends: []e2e.Backend{lb(2, 1), db(2, 1), lb(3, 1)}},
+				{Name: "x2", Weight: 0, Backends: []e2e.Backend{lb(4, 1), lb(5, 1)}},
+			},
+		}
+	})
+	var replayW struct {
+		Case    c08Case       `json:"case"`
+		Initial []c08DynState `json:"initial"`
+		History []c08StepRec  `json:"history"`
+	}
+	if r.Replay != "" {
+		if err := r.LoadReplay(&replayW); err != nil {
+			r.Inconclusive(err.Error())
+			return
+		}
+		hist.useReplay(replayW.Initial, replayW.History, &replayW.Case)
+	}
+	startClusters, startFiles := hist.startOptions()
+	srv, err := e2e.Start(&e2e.Options{Clusters: startClusters, Files: startFiles, HTTPS: true,
 		TLSRule: `{"Version":"1","DefaultNextProtos":["h2","spdy/3.1","http/1.1"],"Config":{}}`})
 	if err != nil {
 		r.Inconclusive("server start: " + err.Error())
 		return
 	}
 	defer srv.Close()
+	hist.srv = srv
 	if err := srv.Srv.CallBacks.AddFilter(bfe_module.HandleForward, func(req *bfe_basic.Request) int {
 		id := req.HttpRequest.Header.Get("X-Id")
 		if b := req.Trans.Backend; b != nil && id != "" {
@@ -187,16 +222,11 @@ func c08(r *vkit.Run) {
 		n++
 	}
 	if r.Replay != "" {
-		var w struct {
-			Case c08Case `json:"case"`
+		if replayW.Case.Hist == "" {
+			c := replayW.Case
+			c.ID = "replay0"
+			cases = append(cases, &c)
 		}
-		if err := r.LoadReplay(&w); err != nil {
-			r.Inconclusive(err.Error())
-			return
-		}
-		c := w.Case
-		c.ID = "replay0"
-		cases = append(cases, &c)
 		r.SetMinDistinct(0)
 	} else if r.Quick() {
 		m := 3000
@@ -243,157 +273,185 @@ func c08(r *vkit.Run) {
 		}
 	}
 
-	status := make([]string, len(cases))
-	vkit.Parallel(len(cases), 48, func(i int) {
-		c := cases[i]
-		if c.Frontend == "h2" || c.Frontend == "spdy" {
-			method := strings.SplitN(c.Shape, "-", 2)[0]
-			body := ""
-			if c.hasBody() {
-				body = "body-of-" + c.ID
+	run := func(cases []*c08Case) []string {
+		status := make([]string, len(cases))
+		vkit.Parallel(len(cases), 48, func(i int) {
+			c := cases[i]
+			if c.Frontend == "h2" || c.Frontend == "spdy" {
+				method := strings.SplitN(c.Shape, "-", 2)[0]
+				body := ""
+				if c.hasBody() {
+					body = "body-of-" + c.ID
+				}
+				host := c.Cluster + ".c08.test"
+				var res *e2e.MiniResult
+				if c.Frontend == "h2" {
+					res = e2e.H2Once(srv.HTTPSAddr, []e2e.HF{{Name: ":method", Value: method}, {Name: ":scheme", Value: "https"}, {Name: ":authority", Value: host}, {Name: ":path", Value: "/c08/" + c.ID},
+						{Name: "x-id", Value: c.ID}, {Name: "x-faults", Value: strings.Join(c.Faults, ",")}}, []byte(body), 60*time.Second)
+				} else {
+					res = e2e.SpdyOnce(srv.HTTPSAddr, []e2e.HF{{Name: ":method", Value: method}, {Name: ":scheme", Value: "https"}, {Name: ":host", Value: host}, {Name: ":path", Value: "/c08/" + c.ID}, {Name: ":version", Value: "HTTP/1.1"},
+						{Name: "x-id", Value: c.ID}, {Name: "x-faults", Value: strings.Join(c.Faults, ",")}}, []byte(body), 60*time.Second)
+				}
+				st := res.Status
+				if len(st) >= 3 {
+					st = st[:3]
+				}
+				if st == "" {
+					st = "err"
+				}
+				status[i] = st
+				return
 			}
-			host := c.Cluster + ".c08.test"
-			var res *e2e.MiniResult
-			if c.Frontend == "h2" {
-				res = e2e.H2Once(srv.HTTPSAddr, []e2e.HF{{Name: ":method", Value: method}, {Name: ":scheme", Value: "https"}, {Name: ":authority", Value: host}, {Name: ":path", Value: "/c08/" + c.ID},
-					{Name: "x-id", Value: c.ID}, {Name: "x-faults", Value: strings.Join(c.Faults, ",")}}, []byte(body), 60*time.Second)
-			} else {
-				res = e2e.SpdyOnce(srv.HTTPSAddr, []e2e.HF{{Name: ":method", Value: method}, {Name: ":scheme", Value: "https"}, {Name: ":host", Value: host}, {Name: ":path", Value: "/c08/" + c.ID}, {Name: ":version", Value: "HTTP/1.1"},
-					{Name: "x-id", Value: c.ID}, {Name: "x-faults", Value: strings.Join(c.Faults, ",")}}, []byte(body), 60*time.Second)
-			}
-			st := res.Status
-			if len(st) >= 3 {
-				st = st[:3]
-			}
-			if st == "" {
-				st = "err"
-			}
-			status[i] = st
-			return
-		}
-		conn, err := net.DialTimeout("tcp", srv.HTTPAddr, 5*time.Second)
-		if err != nil {
-			status[i] = "dial"
-			return
-		}
-		defer conn.Close()
-		conn.SetDeadline(time.Now().Add(60 * time.Second))
-		conn.Write(c.bytes())
-		buf := make([]byte, 4096)
-		var sb strings.Builder
-		for {
-			k, err := conn.Read(buf)
-			sb.Write(buf[:k])
+			conn, err := net.DialTimeout("tcp", srv.HTTPAddr, 5*time.Second)
 			if err != nil {
-				break
+				status[i] = "dial"
+				return
 			}
-		}
-		s := sb.String()
-		// skip a possible "100 Continue"
-		if strings.HasPrefix(s, "HTTP/1.1 100") {
-			if j := strings.Index(s, "\r\n\r\n"); j >= 0 {
-				s = s[j+4:]
-			}
-		}
-		if len(s) >= 12 {
-			status[i] = s[9:12]
-		} else {
-			status[i] = "empty"
-		}
-	})
-	// let late forward callbacks of abandoned attempts settle: every client got its final answer,
-	// and attempts are recorded before RoundTrip, so the log is complete here.
-	mu.Lock()
-	defer mu.Unlock()
-	for i, c := range cases {
-		at := attempts[c.ID]
-		arr := arrivals[c.ID]
-		r.Count("client_status_"+status[i], 1)
-		r.Count("frontend_"+c.Frontend, 1)
-		failed := 0
-		for j, a := range at {
-			if j < len(at)-1 {
-				failed++
-			} else if status[i] != "200" {
-				failed++
-			}
-			_ = a
-		}
-		key := fmt.Sprintf("%s|%s|%s|%v", c.Frontend, c.Cluster, c.Shape, c.Faults)
-		r.CaseS(key, failed > 0)
-		r.Count("attempts_total", int64(len(at)))
-		w := map[string]interface{}{"case": c, "attempts": at, "arrivals_at_live_backends": arr, "client_status": status[i], "request": string(c.bytes())}
-		if len(at) == 0 {
-			r.Count("no_attempt_recorded", 1)
-			continue
-		}
-		// R1 bound
-		if len(at) > 1+c.Max+c.Cross {
-			r.Violation("bound:attempts-exceed-1+RetryMax+CrossRetry", fmt.Sprintf("%d attempts with RetryMax=%d CrossRetry=%d", len(at), c.Max, c.Cross), w)
-		}
-		// R2 each re-send needs a reason. Attempts at live backends consume faults in arrival order.
-		// live attempts that bfe classified as connect failures (dial timeout under load): accepted
-		// only if the backends indeed saw fewer arrivals than live attempts
-		liveAttempts, liveConnFail := 0, 0
-		for j, a := range at {
-			if livePort[a.Port] {
-				liveAttempts++
-				if j+1 < len(at) && at[j+1].PrevErr == bfe_basic.ErrBkConnectBackend.Error() {
-					liveConnFail++
+			defer conn.Close()
+			conn.SetDeadline(time.Now().Add(60 * time.Second))
+			conn.Write(c.bytes())
+			buf := make([]byte, 4096)
+			var sb strings.Builder
+			for {
+				k, err := conn.Read(buf)
+				sb.Write(buf[:k])
+				if err != nil {
+					break
 				}
 			}
-		}
-		connFailCredible := arr <= liveAttempts-liveConnFail
-		k := 0
-		for j := 0; j < len(at)-1; j++ {
-			a := at[j]
-			if !livePort[a.Port] {
-				r.Count("retry_after_connect_failure", 1)
-				continue // connect failure: retry allowed for everything
+			s := sb.String()
+			// skip a possible "100 Continue"
+			if strings.HasPrefix(s, "HTTP/1.1 100") {
+				if j := strings.Index(s, "\r\n\r\n"); j >= 0 {
+					s = s[j+4:]
+				}
 			}
-			if at[j+1].PrevErr == bfe_basic.ErrBkConnectBackend.Error() && connFailCredible {
-				r.Count("retry_after_connect_failure_at_live_port", 1)
+			if len(s) >= 12 {
+				status[i] = s[9:12]
+			} else {
+				status[i] = "empty"
+			}
+		})
+		return status
+	}
+	// evaluate is the offline checker over the attempt log of a finished batch: every client got
+	// its final answer, and attempts are recorded before RoundTrip, so the log is complete here.
+	// extra (optional) adds fields to the witness of a case.
+	mainSamples, histSamples := 0, 0
+	evaluate := func(cases []*c08Case, status []string, extra func(c *c08Case, w map[string]interface{})) {
+		mu.Lock()
+		defer mu.Unlock()
+		for i, c := range cases {
+			at := attempts[c.ID]
+			arr := arrivals[c.ID]
+			r.Count("client_status_"+status[i], 1)
+			r.Count("frontend_"+c.Frontend, 1)
+			failed := 0
+			for j, a := range at {
+				if j < len(at)-1 {
+					failed++
+				} else if status[i] != "200" {
+					failed++
+				}
+				_ = a
+			}
+			key := fmt.Sprintf("%s|%s|%s|%v", c.Frontend, c.Cluster, c.Shape, c.Faults)
+			if c.Hist != "" {
+				key = fmt.Sprintf("%s|l%dm%dx%d|%s|%v|%s", c.Frontend, c.Level, c.Max, c.Cross, c.Shape, c.Faults, c.Hist)
+			}
+			r.CaseS(key, failed > 0)
+			r.Count("attempts_total", int64(len(at)))
+			w := map[string]interface{}{"case": c, "attempts": at, "arrivals_at_live_backends": arr, "client_status": status[i], "request": string(c.bytes())}
+			if extra != nil {
+				extra(c, w)
+			}
+			if len(at) == 0 {
+				r.Count("no_attempt_recorded", 1)
 				continue
 			}
-			f := "ok"
-			if k < len(c.Faults) {
-				f = c.Faults[k]
+			if c.Hist != "" {
+				r.Count("hist_attempts_total", int64(len(at)))
+				if len(at) == 1+c.Max+c.Cross {
+					r.Count("hist_attempts_at_bound", 1)
+				}
 			}
-			k++
-			if c.Shape == "GET" || c.Shape == "GET-cl0" {
-				if c.Level == 1 {
-					r.Count("retry_get_allowed", 1)
+			// R1 bound
+			if len(at) > 1+c.Max+c.Cross {
+				r.Violation("bound:attempts-exceed-1+RetryMax+CrossRetry", fmt.Sprintf("%d attempts with RetryMax=%d CrossRetry=%d", len(at), c.Max, c.Cross), w)
+			}
+			// R2 each re-send needs a reason. Attempts at live backends consume faults in arrival order.
+			// live attempts that bfe classified as connect failures (dial timeout under load): accepted
+			// only if the backends indeed saw fewer arrivals than live attempts
+			liveAttempts, liveConnFail := 0, 0
+			for j, a := range at {
+				if livePort[a.Port] {
+					liveAttempts++
+					if j+1 < len(at) && at[j+1].PrevErr == bfe_basic.ErrBkConnectBackend.Error() {
+						liveConnFail++
+					}
+				}
+			}
+			connFailCredible := arr <= liveAttempts-liveConnFail
+			k := 0
+			for j := 0; j < len(at)-1; j++ {
+				a := at[j]
+				if !livePort[a.Port] {
+					r.Count("retry_after_connect_failure", 1)
+					continue // connect failure: retry allowed for everything
+				}
+				if at[j+1].PrevErr == bfe_basic.ErrBkConnectBackend.Error() && connFailCredible {
+					r.Count("retry_after_connect_failure_at_live_port", 1)
 					continue
 				}
-				r.Violation("resend:get-retried-at-retry-level-0:"+f, fmt.Sprintf("attempt %d reached a live backend (fault %s) and the GET was sent again although RetryLevel=0", j, f), w)
-				continue
-			}
-			r.Violation("resend:non-get-or-body-request-replayed:"+c.Frontend+":"+c.Shape+":"+f,
-				fmt.Sprintf("attempt %d reached a live backend (fault %s) and the %s request was sent again", j, f, c.Shape), w)
-		}
-		// R3 body never replayed
-		if c.hasBody() && arr > 1 {
-			r.Violation("body-replayed:"+c.Frontend+":"+c.Shape, fmt.Sprintf("request with a body arrived %d times at live backends", arr), w)
-		}
-		// R4 cross attempts
-		prim := at[0].Sub
-		for j, a := range at {
-			if a.Sub == "GSLB_BLACKHOLE" {
-				r.Violation("cross:blackhole-selected", fmt.Sprintf("attempt %d went to the blackhole sub-cluster", j), w)
-			}
-			if a.RetryTime > c.Max {
-				r.Count("cross_attempts", 1)
-				if a.Sub == prim {
-					r.Violation("cross:same-sub-cluster", fmt.Sprintf("cross attempt %d (RetryTime=%d > RetryMax=%d) went to the primary sub-cluster %s", j, a.RetryTime, c.Max, prim), w)
+				f := "ok"
+				if k < len(c.Faults) {
+					f = c.Faults[k]
 				}
-			} else if j > 0 && a.Sub != prim {
-				r.Count("early_cross_attempts", 1)
+				k++
+				if c.Shape == "GET" || c.Shape == "GET-cl0" {
+					if c.Level == 1 {
+						r.Count("retry_get_allowed", 1)
+						continue
+					}
+					r.Violation("resend:get-retried-at-retry-level-0:"+f, fmt.Sprintf("attempt %d reached a live backend (fault %s) and the GET was sent again although RetryLevel=0", j, f), w)
+					continue
+				}
+				r.Violation("resend:non-get-or-body-request-replayed:"+c.Frontend+":"+c.Shape+":"+f,
+					fmt.Sprintf("attempt %d reached a live backend (fault %s) and the %s request was sent again", j, f, c.Shape), w)
 			}
-		}
-		if r.WantSample() && len(at) >= 3 {
-			r.Sample(w)
+			// R3 body never replayed
+			if c.hasBody() && arr > 1 {
+				r.Violation("body-replayed:"+c.Frontend+":"+c.Shape, fmt.Sprintf("request with a body arrived %d times at live backends", arr), w)
+			}
+			// R4 cross attempts
+			prim := at[0].Sub
+			for j, a := range at {
+				if a.Sub == "GSLB_BLACKHOLE" {
+					r.Violation("cross:blackhole-selected", fmt.Sprintf("attempt %d went to the blackhole sub-cluster", j), w)
+				}
+				if a.RetryTime > c.Max {
+					r.Count("cross_attempts", 1)
+					if a.Sub == prim {
+						r.Violation("cross:same-sub-cluster", fmt.Sprintf("cross attempt %d (RetryTime=%d > RetryMax=%d) went to the primary sub-cluster %s", j, a.RetryTime, c.Max, prim), w)
+					}
+				} else if j > 0 && a.Sub != prim {
+					r.Count("early_cross_attempts", 1)
+				}
+			}
+			if r.WantSample() && len(at) >= 3 && c.Hist == "" && mainSamples < 4 {
+				mainSamples++
+				r.Sample(w)
+			}
+			if c.Hist != "" && histSamples < 3 && len(at) >= 2 && len(at) == 1+c.Max+c.Cross && c.Step > 3 {
+				histSamples++
+				r.Sample(map[string]interface{}{"case": c, "attempts": at, "client_status": status[i], "reload_steps_before": c.Step})
+			}
 		}
 	}
+	if len(cases) > 0 {
+		evaluate(cases, run(cases), nil)
+	}
+	hist.run(run, evaluate)
 	for k, v := range e2e_panics(srv) {
 		if v != 0 {
 			r.Violation("panic-counter:"+k, fmt.Sprintf("%s=%d", k, v), nil)
